@@ -69,7 +69,7 @@ type c17Engine struct {
 	failed   string // what was made to fail
 	regErr   string
 	tpls     map[string]string
-	afterErr int // callback invocations that happened after the injected failure
+	afterErr int   // callback invocations that happened after the injected failure
 	mtime    int64 // what GetModifiedTime reports for every template (auto-reload runs)
 }
 
